@@ -6,8 +6,8 @@ package verifsim
 // decision from the tape.
 
 import (
-	"encoding/json"
 	"context"
+	"encoding/json"
 	"fmt"
 	"io"
 	"net"
@@ -494,7 +494,7 @@ func (r *Run) MysqlTable(name gobinlog.MysqlTableName) (gobinlog.MysqlTable, err
 		if td != nil && r.att != nil && r.att.Plan.ErrWithTable {
 			// a (value, error) API may hand back both: a table description it had
 			// cached and the error that says it could not be verified
-			st := simTable{name: name}
+			st := simTable{name: gobinlog.MysqlTableName{DbName: name.DbName, TableName: td.shownName()}}
 			for i := range td.Cols {
 				st.cols = append(st.cols, simColumn{td.Cols[i].Name, td.Cols[i].Unsigned})
 			}
@@ -510,7 +510,7 @@ func (r *Run) MysqlTable(name gobinlog.MysqlTableName) (gobinlog.MysqlTable, err
 		call.Verdict = "unknown-table"
 		return nil, fmt.Errorf("sim: unknown table %s.%s", name.DbName, name.TableName)
 	}
-	st := simTable{name: name}
+	st := simTable{name: gobinlog.MysqlTableName{DbName: name.DbName, TableName: td.shownName()}}
 	n := len(td.Cols)
 	if v.kind == 2 {
 		n += v.delta
